@@ -65,8 +65,8 @@ RESET = {"t": "-", "op": "reset", "var": "-", "a": "-", "b": "-", "r": "-"}
 # quick: model checked AND conformance-checked
 QUICK = ["fork_crcu1", "fork_ht2", "fork_bp0"]
 # quick: conformance only (their TLC configurations -- 0.2M..1.1M states -- run in the thorough tier)
-QUICK_CONF_ONLY = ["fork_bp_reg", "fork_ht1", "fork_crcu3"]     # fork_crcu3: per-thread helper only, no default helper at fork time
-THOROUGH = ["fork_crcu0", "fork_bp1", "fork_crcu2", "fork_crcu4", "fork_ht3", "fork_bp2"]
+QUICK_CONF_ONLY = ["fork_bp_reg", "fork_ht1", "fork_crcu3", "fork_ht4"]     # fork_crcu3: per-thread helper only, no default helper at fork time
+THOROUGH = ["fork_crcu0", "fork_bp1", "fork_crcu2", "fork_crcu4", "fork_ht3", "fork_bp2", "fork_ht4"]
 # negative controls for TLC: (scenario, follow, mutants, acceptable violations)
 NEG_QUICK = [("fork_nohandlers", "C", (), None), ("fork_bp0", "C", ("noprune",), None)]
 NEG_THOROUGH = [("fork_bp_reg", "C", ("noinitlock",), None), ("fork_crcu1", "C", ("nosplice",), None), ("fork_crcu1", "C", ("joinold",), None), ("fork_crcu1", "C", ("nopausedwait",), None),
